@@ -540,7 +540,7 @@ def selfcheck(col):
 def plan(tier, seed, scale=1.0):
     thorough = tier == 'thorough'
     nshard = 16
-    nh = int((3200 if thorough else 64) * scale)
+    nh = int((1280 if thorough else 64) * scale)
     return [{'shard': i, 'nshard': nshard, 'n_hist': max(1, nh // nshard), 'max_ops': 45 if thorough else 22} for i in range(nshard)]
 
 
